@@ -71,22 +71,24 @@ Proof. vm_compute. reflexivity. Qed.
 (* the variable-size table, entry by entry: what var_pick returns and what the decoder knows *)
 Definition var_pick_btc (size : N) := var_pick variable_table size None.
 
-Definition var_facts : bool :=
-  match variable_table with
-  | [(m1, o1, w1, ms1); (m2, o2, w2, ms2); (m3, o3, w3, ms3)] =>
-    (* widths and maxima agree, minima chain: ms(i+1) = m(i) *)
-    (m1 + 1 =? 256 ^ N.of_nat w1) && (m2 + 1 =? 256 ^ N.of_nat w2) && (m3 + 1 =? 256 ^ N.of_nat w3)
-    && (ms1 =? 0) && (ms2 =? m1) && (ms3 =? m2) && (m1 <? m2) && (m2 <? m3) && (m3 + 1 =? 2 ^ 32)
-    && (o1 <? 256) && (o2 <? 256) && (o3 <? 256)
-    && forallb (fun o => opt_bytes_eqb (const_by_opcode const_table o) None
-                         && opt_N_eqb (sized_by_opcode sized_table o) None) [o1; o2; o3]
-    && (match var_by_opcode variable_table o1 with Some (w, ms) => Nat.eqb w w1 && (ms =? ms1) | None => false end)
-    && (match var_by_opcode variable_table o2 with Some (w, ms) => Nat.eqb w w2 && (ms =? ms2) | None => false end)
-    && (match var_by_opcode variable_table o3 with Some (w, ms) => Nat.eqb w w3 && (ms =? ms3) | None => false end)
-  | _ => false
-  end.
-Lemma var_facts_ok : var_facts = true.
-Proof. vm_compute. reflexivity. Qed.
+Record var_entry_ok (prev_max m o : N) (w : nat) (ms : N) : Prop := {
+  ve_width : m + 1 = 256 ^ N.of_nat w;
+  ve_min : ms = prev_max;
+  ve_lt : prev_max < m \/ (prev_max = 0 /\ 0 < m);
+  ve_o : o < 256;
+  ve_nc : const_by_opcode const_table o = None;
+  ve_ns : sized_by_opcode sized_table o = None;
+  ve_v : var_by_opcode variable_table o = Some (w, ms) }.
+
+Lemma var_table_facts : exists m1 o1 w1 ms1 m2 o2 w2 ms2 m3 o3 w3 ms3,
+  variable_table = [(m1, o1, w1, ms1); (m2, o2, w2, ms2); (m3, o3, w3, ms3)] /\
+  var_entry_ok 0 m1 o1 w1 ms1 /\ var_entry_ok m1 m2 o2 w2 ms2 /\ var_entry_ok m2 m3 o3 w3 ms3 /\
+  m3 + 1 = 4294967296.
+Proof.
+  unfold variable_table. do 12 eexists. split; [reflexivity|].
+  repeat split; try (vm_compute; reflexivity); try (left; vm_compute; reflexivity);
+    try (right; split; vm_compute; reflexivity).
+Qed.
 
 (* ---- slicing --------------------------------------------------------------------------------- *)
 Lemma slice_head {A} (x : A) (a b : list A) n :
@@ -131,76 +133,36 @@ Proof.
       rewrite Hsl. rewrite Nat.ltb_irrefl.
       unfold is_const_value. rewrite Hc. rewrite andb_false_r. cbn [length]. reflexivity.
     + (* PUSHDATA1/2/4 *)
-      pose proof var_facts_ok as VF. unfold var_facts in VF.
-      destruct variable_table as [|[[[m1 o1] w1] ms1] [|[[[m2 o2] w2] ms2] [|[[[m3 o3] w3] ms3] [|? ?]]]] eqn:VT;
-        try discriminate.
-      repeat (apply andb_true_iff in VF; destruct VF as [VF ?]).
-      cbn [forallb] in *.
-      repeat match goal with H : (_ && _)%bool = true |- _ => apply andb_true_iff in H; destruct H end.
+      destruct var_table_facts as (m1 & o1 & w1 & ms1 & m2 & o2 & w2 & ms2 & m3 & o3 & w3 & ms3 & VT & E1 & E2 & E3 & Hm3).
+      rewrite VT.
       assert (Hd0 : size <> 0).
       { intros E. assert (d = []) by (destruct d; [reflexivity | unfold size in E; cbn in E; lia]).
         subst d. rewrite empty_is_const in Hc. discriminate. }
       assert (Hsz : N.to_nat size = length d) by (unfold size; lia).
-      (* which entry does the for-loop stop at? *)
+      change (2 ^ 32) with 4294967296 in Hlen.
       cbn [var_pick].
-      destruct (size <=? m1) eqn:E1; [|destruct (size <=? m2) eqn:E2; [|destruct (size <=? m3) eqn:E3]].
-      * (* PUSHDATA1 *)
-        replace (size <? 256 ^ N.of_nat w1) with true by lia.
-        eexists. split; [reflexivity|]. intros m. exists o1. repeat split; try lia; auto.
-        unfold btc_get_opcode, get_opcode. rewrite VT. cbn [nth_error]. rewrite b2n_n2b by lia.
-        repeat match goal with H : opt_bytes_eqb ?x None = true |- _ => apply opt_bytes_none in H; try rewrite H end.
-        repeat match goal with H : opt_N_eqb ?x None = true |- _ => apply opt_N_none in H; try rewrite H end.
-        destruct (var_by_opcode ((m1, o1, w1, ms1) :: (m2, o2, w2, ms2) :: [(m3, o3, w3, ms3)]) o1) as [[w ms]|] eqn:Ev; [|discriminate].
-        match goal with H : (Nat.eqb w w1 && (ms =? ms1))%bool = true |- _ => apply andb_true_iff in H; destruct H as [Hw Hms] end.
-        apply Nat.eqb_eq in Hw. subst w.
-        change (0 + 1)%nat with 1%nat.
-        rewrite (slice_head (n2b o1) (le_encode w1 size) d w1) by (now rewrite le_encode_length).
-        rewrite le_encode_length, Nat.ltb_irrefl, le_decode_encode by lia.
+      assert (Hone : forall prev m o w ms, var_entry_ok prev m o w ms -> prev < size -> size <= m ->
+                forall mm, push_result_ok d (n2b o :: le_encode w size ++ d) mm).
+      { intros prev m o w ms [Hw Hms Hlt Ho Hnc Hns Hv] Hp Hle mm. exists o. repeat split; auto.
+        assert (Hsw : size < 256 ^ N.of_nat w) by lia.
+        unfold btc_get_opcode, get_opcode. cbn [nth_error]. rewrite b2n_n2b by exact Ho.
+        rewrite Hnc, Hns, Hv. change (0 + 1)%nat with 1%nat.
+        rewrite (slice_head (n2b o) (le_encode w size) d w) by (now rewrite le_encode_length).
+        rewrite le_encode_length, Nat.ltb_irrefl, le_decode_encode by exact Hsw.
         match goal with |- context [N.of_nat ?x <? size] =>
           replace (N.of_nat x <? size) with false by (cbn [length]; rewrite app_length, le_encode_length; lia) end.
         rewrite Hsz.
-        rewrite (slice_tail (n2b o1) (le_encode w1 size) d w1 (length d)) by (now rewrite ?le_encode_length).
+        rewrite (slice_tail (n2b o) (le_encode w size) d w (length d)) by (now rewrite ?le_encode_length).
         rewrite Nat.ltb_irrefl.
         unfold is_sized_value. rewrite Hs. replace (size <=? ms) with false by lia.
-        rewrite andb_false_r. cbn [length]. rewrite app_length, le_encode_length. reflexivity.
-      * (* PUSHDATA2 *)
-        replace (size <? 256 ^ N.of_nat w2) with true by lia.
-        eexists. split; [reflexivity|]. intros m. exists o2. repeat split; try lia; auto.
-        unfold btc_get_opcode, get_opcode. rewrite VT. cbn [nth_error]. rewrite b2n_n2b by lia.
-        repeat match goal with H : opt_bytes_eqb ?x None = true |- _ => apply opt_bytes_none in H; try rewrite H end.
-        repeat match goal with H : opt_N_eqb ?x None = true |- _ => apply opt_N_none in H; try rewrite H end.
-        destruct (var_by_opcode ((m1, o1, w1, ms1) :: (m2, o2, w2, ms2) :: [(m3, o3, w3, ms3)]) o2) as [[w ms]|] eqn:Ev; [|discriminate].
-        match goal with H : (Nat.eqb w w2 && (ms =? ms2))%bool = true |- _ => apply andb_true_iff in H; destruct H as [Hw Hms] end.
-        apply Nat.eqb_eq in Hw. subst w.
-        change (0 + 1)%nat with 1%nat.
-        rewrite (slice_head (n2b o2) (le_encode w2 size) d w2) by (now rewrite le_encode_length).
-        rewrite le_encode_length, Nat.ltb_irrefl, le_decode_encode by lia.
-        match goal with |- context [N.of_nat ?x <? size] =>
-          replace (N.of_nat x <? size) with false by (cbn [length]; rewrite app_length, le_encode_length; lia) end.
-        rewrite Hsz.
-        rewrite (slice_tail (n2b o2) (le_encode w2 size) d w2 (length d)) by (now rewrite ?le_encode_length).
-        rewrite Nat.ltb_irrefl.
-        unfold is_sized_value. rewrite Hs. replace (size <=? ms) with false by lia.
-        rewrite andb_false_r. cbn [length]. rewrite app_length, le_encode_length. reflexivity.
-      * (* PUSHDATA4 *)
-        replace (size <? 256 ^ N.of_nat w3) with true by lia.
-        eexists. split; [reflexivity|]. intros m. exists o3. repeat split; try lia; auto.
-        unfold btc_get_opcode, get_opcode. rewrite VT. cbn [nth_error]. rewrite b2n_n2b by lia.
-        repeat match goal with H : opt_bytes_eqb ?x None = true |- _ => apply opt_bytes_none in H; try rewrite H end.
-        repeat match goal with H : opt_N_eqb ?x None = true |- _ => apply opt_N_none in H; try rewrite H end.
-        destruct (var_by_opcode ((m1, o1, w1, ms1) :: (m2, o2, w2, ms2) :: [(m3, o3, w3, ms3)]) o3) as [[w ms]|] eqn:Ev; [|discriminate].
-        match goal with H : (Nat.eqb w w3 && (ms =? ms3))%bool = true |- _ => apply andb_true_iff in H; destruct H as [Hw Hms] end.
-        apply Nat.eqb_eq in Hw. subst w.
-        change (0 + 1)%nat with 1%nat.
-        rewrite (slice_head (n2b o3) (le_encode w3 size) d w3) by (now rewrite le_encode_length).
-        rewrite le_encode_length, Nat.ltb_irrefl, le_decode_encode by lia.
-        match goal with |- context [N.of_nat ?x <? size] =>
-          replace (N.of_nat x <? size) with false by (cbn [length]; rewrite app_length, le_encode_length; lia) end.
-        rewrite Hsz.
-        rewrite (slice_tail (n2b o3) (le_encode w3 size) d w3 (length d)) by (now rewrite ?le_encode_length).
-        rewrite Nat.ltb_irrefl.
-        unfold is_sized_value. rewrite Hs. replace (size <=? ms) with false by lia.
-        rewrite andb_false_r. cbn [length]. rewrite app_length, le_encode_length. reflexivity.
+        rewrite andb_false_r. cbn [length]. rewrite app_length, le_encode_length. reflexivity. }
+      destruct (size <=? m1) eqn:L1; [|destruct (size <=? m2) eqn:L2; [|destruct (size <=? m3) eqn:L3]].
+      * destruct E1 as [Hw ?]. replace (size <? 256 ^ N.of_nat w1) with true by lia.
+        eexists. split; [reflexivity|]. eapply (Hone 0 m1 o1 w1 ms1); [constructor; eauto | lia | lia].
+      * destruct E2 as [Hw ?]. replace (size <? 256 ^ N.of_nat w2) with true by lia.
+        eexists. split; [reflexivity|]. eapply (Hone m1 m2 o2 w2 ms2); [constructor; eauto | lia | lia].
+      * destruct E3 as [Hw ?]. replace (size <? 256 ^ N.of_nat w3) with true by lia.
+        eexists. split; [reflexivity|]. eapply (Hone m2 m3 o3 w3 ms3); [constructor; eauto | lia | lia].
       * exfalso. lia.
 Qed.
 
@@ -270,56 +232,20 @@ Proof.
     + destruct (sized_fact size o Hs) as [Ho [Hpos [Hnc Hback]]].
       intros H; injection H as <-. cbn [length]. intros Hk.
       apply (sized_truncated o size); auto; lia.
-    + pose proof var_facts_ok as VF. unfold var_facts in VF.
-      destruct variable_table as [|[[[m1 o1] w1] ms1] [|[[[m2 o2] w2] ms2] [|[[[m3 o3] w3] ms3] [|? ?]]]] eqn:VT;
-        try discriminate.
-      repeat (apply andb_true_iff in VF; destruct VF as [VF ?]).
-      cbn [forallb] in *.
-      repeat match goal with H : (_ && _)%bool = true |- _ => apply andb_true_iff in H; destruct H end.
-      repeat match goal with H : opt_bytes_eqb ?x None = true |- _ => apply opt_bytes_none in H end.
-      repeat match goal with H : opt_N_eqb ?x None = true |- _ => apply opt_N_none in H end.
+    + destruct var_table_facts as (m1 & o1 & w1 & ms1 & m2 & o2 & w2 & ms2 & m3 & o3 & w3 & ms3 & VT & E1 & E2 & E3 & Hm3).
+      rewrite VT. change (2 ^ 32) with 4294967296 in Hlen.
       cbn [var_pick].
-      destruct (size <=? m1) eqn:E1; [|destruct (size <=? m2) eqn:E2; [|destruct (size <=? m3) eqn:E3]].
-      * replace (size <? 256 ^ N.of_nat w1) with true by lia.
+      destruct (size <=? m1) eqn:L1; [|destruct (size <=? m2) eqn:L2; [|destruct (size <=? m3) eqn:L3]].
+      * destruct E1 as [Hw Hms Hlt Ho Hnc Hns Hv]. replace (size <? 256 ^ N.of_nat w1) with true by lia.
         intros Hr; injection Hr as <-. cbn [length]. rewrite app_length, le_encode_length. intros Hk.
-        destruct (var_by_opcode ((m1, o1, w1, ms1) :: (m2, o2, w2, ms2) :: [(m3, o3, w3, ms3)]) o1) as [[w ms]|] eqn:Ev; [|discriminate].
-        match goal with H : (Nat.eqb w w1 && (ms =? ms1))%bool = true |- _ => apply andb_true_iff in H; destruct H as [Hw Hms] end.
-        apply Nat.eqb_eq in Hw. subst w.
-        apply (var_truncated o1 w1 ms size); auto; try lia. rewrite VT. exact Ev.
-      * replace (size <? 256 ^ N.of_nat w2) with true by lia.
+        apply (var_truncated o1 w1 ms1 size); auto; lia.
+      * destruct E2 as [Hw Hms Hlt Ho Hnc Hns Hv]. replace (size <? 256 ^ N.of_nat w2) with true by lia.
         intros Hr; injection Hr as <-. cbn [length]. rewrite app_length, le_encode_length. intros Hk.
-        destruct (var_by_opcode ((m1, o1, w1, ms1) :: (m2, o2, w2, ms2) :: [(m3, o3, w3, ms3)]) o2) as [[w ms]|] eqn:Ev; [|discriminate].
-        match goal with H : (Nat.eqb w w2 && (ms =? ms2))%bool = true |- _ => apply andb_true_iff in H; destruct H as [Hw Hms] end.
-        apply Nat.eqb_eq in Hw. subst w.
-        apply (var_truncated o2 w2 ms size); auto; try lia. rewrite VT. exact Ev.
-      * replace (size <? 256 ^ N.of_nat w3) with true by lia.
+        apply (var_truncated o2 w2 ms2 size); auto; lia.
+      * destruct E3 as [Hw Hms Hlt Ho Hnc Hns Hv]. replace (size <? 256 ^ N.of_nat w3) with true by lia.
         intros Hr; injection Hr as <-. cbn [length]. rewrite app_length, le_encode_length. intros Hk.
-        destruct (var_by_opcode ((m1, o1, w1, ms1) :: (m2, o2, w2, ms2) :: [(m3, o3, w3, ms3)]) o3) as [[w ms]|] eqn:Ev; [|discriminate].
-        match goal with H : (Nat.eqb w w3 && (ms =? ms3))%bool = true |- _ => apply andb_true_iff in H; destruct H as [Hw Hms] end.
-        apply Nat.eqb_eq in Hw. subst w.
-        apply (var_truncated o3 w3 ms size); auto; try lia. rewrite VT. exact Ev.
+        apply (var_truncated o3 w3 ms3 size); auto; lia.
       * exfalso. lia.
-Qed.
-
-(* the encoder picks the shortest form: its length against every other way to push d *)
-Lemma push_length d s : btc_compile_push_data d = Ret s ->
-  (length s <= 5 + length d)%nat.
-Proof.
-  unfold btc_compile_push_data, compile_push_data.
-  destruct (const_by_data const_table d); [intros H; injection H as <-; cbn; lia|].
-  destruct (sized_by_size sized_table _); [intros H; injection H as <-; cbn; lia|].
-  pose proof var_facts_ok as VF. unfold var_facts in VF.
-  destruct variable_table as [|[[[m1 o1] w1] ms1] [|[[[m2 o2] w2] ms2] [|[[[m3 o3] w3] ms3] [|? ?]]]]; try discriminate.
-  repeat (apply andb_true_iff in VF; destruct VF as [VF ?]).
-  assert (w1 <= 4 /\ w2 <= 4 /\ w3 <= 4)%nat as [? [? ?]].
-  { assert (Hp : forall w m, m + 1 = 256 ^ N.of_nat w -> m + 1 <= 2 ^ 32 -> (w <= 4)%nat).
-    { intros w m E L. destruct (Nat.le_gt_cases w 4); [assumption|exfalso].
-      assert (256 ^ 5 <= 256 ^ N.of_nat w) by (apply N.pow_le_mono_r; lia).
-      change (256 ^ 5) with 1099511627776 in *. change (2 ^ 32) with 4294967296 in *. lia. }
-    repeat split; eapply Hp; try (apply N.eqb_eq; eassumption); lia. }
-  cbn [var_pick].
-  repeat match goal with |- context [if ?c then _ else _] => destruct c end;
-    intros Hr; try discriminate; injection Hr as <-; cbn [length]; rewrite app_length, le_encode_length; lia.
 Qed.
 
 (* ---- the encoder's choice equals the consensus-minimal form (Core's CheckMinimalPush) ------- *)
